@@ -175,3 +175,121 @@ Definition judge_cliverdict (rec : list Z) : Z :=
     end
   | None => 1
   end.
+
+(* ---------- cmr-matrix -d: double-valued input, support / signed support with tolerance 1e-9 ---------- *)
+(* a decimal token [-+]?digits[.digits][(e|E)[-+]?digits] denotes mant * 10^ex exactly; its "sign beyond the tolerance" is
+   0 if |value| <= 10^-9 and the sign of the value otherwise (CMRdblmatSupport / SignedSupport with epsilon 1e-9; the
+   generators stay away from values whose distance to 1e-9 is below double precision) *)
+Fixpoint split_at (c1 c2 : Z) (l : list Z) : list Z * option (list Z) :=
+  match l with
+  | [] => ([], None)
+  | x :: r => if (x =? c1) || (x =? c2) then ([], Some r)
+              else let '(a, b) := split_at c1 c2 r in (x :: a, b)
+  end.
+
+Definition parse_signed_digits (l : list Z) : option Z :=
+  match l with
+  | 45 :: ds => if all_digits ds then Some (- digits_val 0 ds) else None
+  | 43 :: ds => if all_digits ds then Some (digits_val 0 ds) else None
+  | _ => if all_digits l then Some (digits_val 0 l) else None
+  end.
+
+(* Some (mant, ex) with value = mant * 10^ex *)
+Definition parse_decimal (tok : list Z) : option (Z * Z) :=
+  let '(mantpart, expart) := split_at 101 69 tok in          (* e E *)
+  let '(neg, body) := match mantpart with 45 :: r => (true, r) | 43 :: r => (false, r) | _ => (false, mantpart) end in
+  let '(ip, fp) := split_at 46 46 body in                     (* . *)
+  let fpd := match fp with Some f => f | None => [] end in
+  if negb (forallb is_digit ip && forallb is_digit fpd) || Nat.eqb (List.length ip + List.length fpd) 0 then None
+  else
+    let mant := digits_val 0 (List.app ip fpd) in
+    match (match expart with None => Some 0 | Some e => parse_signed_digits e end) with
+    | None => None
+    | Some ex => Some ((if neg then - mant else mant), ex - Z.of_nat (List.length fpd))
+    end.
+
+(* sign of mant*10^ex if |mant*10^ex| > 10^-9, else 0 *)
+Definition tol_sign (d : Z * Z) : Z :=
+  let '(mant, ex) := d in
+  let a := Z.abs mant in
+  let big := if 0 <=? ex + 9 then 1 <? a * 10 ^ (ex + 9) else 10 ^ (- (ex + 9)) <? a in
+  if big then (if mant <? 0 then -1 else 1) else 0.
+
+Fixpoint take_decs (k : nat) (toks : list (list Z)) : option (list Z * list (list Z)) :=
+  match k with
+  | O => Some ([], toks)
+  | S k' => match toks with
+            | t :: r => match parse_decimal t, take_decs k' r with
+                        | Some d, Some (vs, rest) => Some (tol_sign d :: vs, rest)
+                        | _, _ => None
+                        end
+            | [] => None
+            end
+  end.
+
+(* the matrix of tolerance signs a double-valued dense / sparse file denotes *)
+Definition parse_dbl_signs (fmt : Z) (bytes : list Z) : tres :=
+  if fmt =? 0 then
+    match take_ints 2 (tokens bytes) with
+    | Some ([m; n], rest) =>
+      if size_ok m && size_ok n then
+        let mm := Z.to_nat m in let nn := Z.to_nat n in
+        match take_decs (mm * nn) rest with
+        | Some (vs, _) => TOk mm nn (chunk nn mm vs)
+        | None => TErr
+        end
+      else TErr
+    | _ => TErr
+    end
+  else
+    match take_ints 3 (tokens bytes) with
+    | Some ([m; n; k], rest) =>
+      if size_ok m && size_ok n && size_ok k then
+        let fix trip (c : nat) (toks : list (list Z)) : option (list (Z * Z * Z)) :=
+          match c with
+          | O => Some []
+          | S c' => match toks with
+                    | tr :: tc :: tv :: r =>
+                      match parse_int tr, parse_int tc, parse_decimal tv, trip c' r with
+                      | Some i, Some j, Some d, Some l => Some ((i, j, tol_sign d) :: l)
+                      | _, _, _, _ => None
+                      end
+                    | _ => None
+                    end
+          end in
+        match trip (Z.to_nat k) rest with
+        | Some l =>
+          if forallb (fun t => (1 <=? fst (fst t)) && (fst (fst t) <=? m) && (1 <=? snd (fst t)) && (snd (fst t) <=? n)) l
+             && negb (dup_pos l)
+          then TOk (Z.to_nat m) (Z.to_nat n) (mk_mat (Z.to_nat m) (Z.to_nat n) (entry_of l))
+          else TErr
+        | None => TErr
+        end
+      else TErr
+    | _ => TErr
+    end.
+
+(* record layout of judge_climat; the tool is run with -d and only -c / -C requests are judged (a plain copy prints
+   doubles, which are not compared) *)
+Definition judge_climatd (rec : list Z) : Z :=
+  match (infmt <- dZ ;; outfmt <- dZ ;; tr <- dbool ;; task <- dZ ;; hasS <- dbool ;; rs <- dlist dnat ;; cs <- dlist dnat ;;
+         inb <- dlist dZ ;; rc <- dZ ;; hasout <- dbool ;; outb <- dlist dZ ;;
+         dend (infmt, outfmt, tr, task, hasS, rs, cs, inb, rc, hasout, outb)) rec with
+  | Some ((infmt, outfmt, tr, task, hasS, rs, cs, inb, rc, hasout, outb), _) =>
+    if negb ((task =? 1) || (task =? 2)) then 0 else
+    match parse_dbl_signs infmt inb with
+    | TErr => 0
+    | TOk m n Sg =>
+      match climat_expected hasS rs cs tr task (m, n, Sg) with
+      | None => 0
+      | Some (m2, n2, M2) =>
+        if negb (rc =? 0) then 321
+        else if negb hasout then 322
+        else match parse outfmt 1 outb with
+             | TErr => 323
+             | TOk m' n' M' => if Nat.eqb m' m2 && Nat.eqb n' n2 && mat_eqb M' M2 then 0 else 324
+             end
+      end
+    end
+  | None => 1
+  end.
